@@ -1,19 +1,26 @@
 ----------------------------- MODULE RelayScript -----------------------------
-(* RelayGen driven by a fixed script of environment steps (JSON array of      *)
-(* {a,i,s,side} in the file named by the environment variable VERIF_SCRIPT):   *)
-(* the one behaviour with exactly these steps (continuations in canonical      *)
-(* order, then the canonical drain) is emitted.  Used to bind each named       *)
-(* deviation of Relay.tla to the code with a scenario that exhibits it, and    *)
-(* to reproduce a reported schedule.                                           *)
+(* RelayGen driven by fixed scripts of environment steps (a JSON array of     *)
+(* scripts, each an array of {a,i,s,side}, in the file named by the           *)
+(* environment variable VERIF_SCRIPT): for every script the one behaviour     *)
+(* with exactly these steps (continuations in canonical order, then the       *)
+(* canonical drain) is emitted.  Used to bind each named deviation of         *)
+(* Relay.tla to the code with a scenario that exhibits it, and to reproduce a *)
+(* reported schedule.  A script with a step the model does not enable emits   *)
+(* nothing (the driver treats that as an error of the script).                *)
 EXTENDS RelayGen, IOUtils
 
-Script == JsonDeserialize(IOEnv.VERIF_SCRIPT)
+VARIABLE sidx
+svars == <<st, hist, sidx>>
 
-SStep == IF InternalEnabled(st) THEN IntStep
-         ELSE IF Len(hist) < Len(Script)
-           THEN EnvStep /\ hist'[Len(hist')].ev = Script[Len(hist')]
-           ELSE DrainStep
-SSpec == GInit /\ [][SStep]_gvars
-SDone == ~InternalEnabled(st) /\ Len(hist) >= Len(Script) /\ ~DeliverEnabled(st) /\ ~AppReadEnabled(st)
-SEmit == SDone => PrintT(<<"BEHAVIOUR", ToJson([steps |-> hist])>>)
+Scripts == JsonDeserialize(IOEnv.VERIF_SCRIPT)
+
+SInit == GInit /\ sidx \in 1..Len(Scripts)
+SStep == /\ UNCHANGED sidx
+         /\ IF InternalEnabled(st) THEN IntStep
+            ELSE IF Len(hist) < Len(Scripts[sidx])
+              THEN EnvStep /\ hist'[Len(hist')].ev = Scripts[sidx][Len(hist')]
+              ELSE DrainStep
+SSpec == SInit /\ [][SStep]_svars
+SDone == ~InternalEnabled(st) /\ Len(hist) >= Len(Scripts[sidx]) /\ ~DeliverEnabled(st) /\ ~AppReadEnabled(st)
+SEmit == SDone => PrintT(<<"BEHAVIOUR", ToJson([steps |-> hist, script |-> sidx])>>)
 =============================================================================
